@@ -524,8 +524,12 @@ func Forall(bound []*Term, body *Term, pats ...*Term) *Term {
 // variable occurs in array indices only as `base + i` for one base, change variables to the absolute
 // index x = base + i: every `(+ base i)` becomes x and every other occurrence of i becomes `x - base`.
 // The quantifier is equivalent; its natural pattern is then `(select a x)`.
+// absPatterns: side channel from absolutize to flattenForall: bound variable name -> trigger term
+var absPatterns = map[string]*Term{}
+
 func absolutize(bound []*Term, body *Term) *Term {
 	for _, bv := range bound {
+		delete(absPatterns, bv.Name)
 		if bv.S != IntSort {
 			continue
 		}
@@ -548,7 +552,35 @@ func absolutize(bound []*Term, body *Term) *Term {
 			memo[t] = r
 			return r
 		}
+		// pass 1: element objects elemref(region, base+i) take precedence (their fields live in maps whose
+		// versions change with every store, so the version-independent pattern elemref(region, x) is the
+		// robust trigger); other indexings of i are then rewritten relative to x
+		var erBase, erPat *Term
+		erOK := true
+		Walk(body, map[*Term]bool{}, func(t *Term) {
+			if t.Op != "app" || t.Name != "elemref" || len(t.Args) != 2 || !mentionsV(t.Args[1]) {
+				return
+			}
+			idx := t.Args[1]
+			if idx.Op == "+" && len(idx.Args) == 2 && idx.Args[1].Op == "var" && idx.Args[1].Name == bv.Name && !mentionsV(idx.Args[0]) && !mentionsV(t.Args[0]) {
+				if erBase == nil {
+					erBase, erPat = idx.Args[0], t
+				} else if !sameTerm(erBase, idx.Args[0]) {
+					erOK = false
+				}
+				return
+			}
+			erOK = false
+		})
+		if erBase != nil && erOK {
+			base = erBase
+			found = true
+			absPatterns[bv.Name] = App("elemref", IntSort, erPat.Args[0], bv)
+		}
 		Walk(body, seen, func(t *Term) {
+			if erBase != nil && erOK {
+				return
+			}
 			if !ok || t.Op != "select" || len(t.Args) != 2 {
 				return
 			}
@@ -631,6 +663,12 @@ func flattenForall(bound []*Term, body *Term) *Term {
 		guard, inner = body.Args[0], body.Args[1]
 	}
 	if inner.Op != "forall" || len(inner.Args) != 2 {
+		if len(bound) == 1 {
+			if pt := absPatterns[bound[0].Name]; pt != nil {
+				delete(absPatterns, bound[0].Name)
+				return Forall(bound, body, pt)
+			}
+		}
 		return Forall(bound, body)
 	}
 	innerNames := map[string]bool{}
